@@ -135,6 +135,34 @@ theorem insert_variable_not_input (spec : ConvSpec) (cid : ConvId) (ver : String
     simp only [beq_eq_false_iff_ne, ne_eq]
     exact fun e => hne e.symm
 
+/-- *Characteristic edge coordinates of a UGRID mesh are geometry*, whichever optional connectivity
+tables are valid (`valid`) — in particular on a mesh with no `edge_dimension` attribute and no
+edge_node / edge_face table, whose edge dimension is only the one these variables span: each of the
+two names of the mesh's `edge_coordinates` attribute that exists as a variable is in the inventory. -/
+theorem ugrid_edge_coordinates_are_geometry (ds : Views) (valid : List String) (mesh : VarView)
+    (names : List String) (s x y n : String)
+    (hm : meshVar ds none = some mesh) (ha : mesh.attr "edge_coordinates" = some s)
+    (hs : splitCoord s = some (x, y)) (h : inventoryOf (.ugrid valid) ds = some names)
+    (hn : n = x ∨ n = y) (hv : (ds.var? n).isSome = true) : n ∈ names := by
+  have hec : optionalCoords ds mesh "edge_coordinates"
+      = some ([x, y].filter fun n => (ds.var? n).isSome) := by
+    simp [optionalCoords, ha, hs]
+  have hmem : n ∈ [x, y].filter fun n => (ds.var? n).isSome := by
+    rcases hn with rfl | rfl <;> simp [hv]
+  simp only [inventoryOf, ugridNames, hm] at h
+  split at h
+  · split at h
+    · rw [hec] at h
+      split at h
+      · rename_i ec fc hE hF
+        cases hE
+        cases h
+        simp only [List.mem_append]
+        exact Or.inl (Or.inr hmem)
+      · cases h
+    · cases h
+  · cases h
+
 /-! ## single edits of geometry content change the stream -/
 
 theorem edit_rename_changes_stream (pre post post' : List GeomRec) (r r' : GeomRec)
@@ -218,6 +246,16 @@ theorem edit_value_changes_stream (pre post post' : List GeomRec) (r r' : GeomRe
   rw [hshape, hsh'] at hsh
   cases hsh
   exact hne (List.append_inj (List.append_cancel_left e) hlen).1
+
+/-- *The bytes hashed are those of the values held in memory, whatever type the variable is stored
+with*: two variables that differ in their value bytes only give different streams for ANY
+`encoding['dtype']` (`encDtype`) — nothing is rounded to the storage type first. -/
+theorem edit_value_changes_stream_any_storage (pre post : List GeomRec) (v : DVar) (d' : Bytes)
+    (c : ConvId) (ver : String) (s s' : Bytes)
+    (h : cacheStream (pre ++ v.record :: post) c ver = some s)
+    (h' : cacheStream (pre ++ ({ v with data := d' } : DVar).record :: post) c ver = some s')
+    (hlen : v.data.length = d'.length) (hne : v.data ≠ d') : s ≠ s' :=
+  edit_value_changes_stream pre post post _ _ c c ver ver s s' h h' rfl hlen hne
 
 /-- *Attribute add / change / remove*: same shape and bytes, another attribute count or other
 attribute bytes ⇒ the streams differ, whatever follows.  (That different attributes HAVE different
@@ -395,6 +433,22 @@ example : inventoryOf (.ugrid ["face_edge_connectivity"])
      ⟨"nx", ["n"], false, []⟩, ⟨"ny", ["n"], false, []⟩, ⟨"fn", ["f", "m"], false, []⟩,
      ⟨"fe", ["f", "m"], false, []⟩, ⟨"en", ["e", "two"], false, []⟩, ⟨"fx", ["f"], false, []⟩, ⟨"fy", ["f"], true, []⟩]
     = some ["Mesh2", "fn", "nx", "ny", "fe", "fx", "fy"] := by decide
+
+/-- `ugrid_edge_coordinates_are_geometry`'s hypotheses hold on a mesh WITHOUT an edge dimension (no valid
+optional table, no edge table at all): the edge coordinates are in the inventory -/
+example : inventoryOf (.ugrid [])
+    [⟨"Mesh2", [], false, [("cf_role", "mesh_topology"), ("node_coordinates", "nx ny"),
+        ("face_node_connectivity", "fn"), ("edge_coordinates", "ex ey")]⟩,
+     ⟨"nx", ["n"], false, []⟩, ⟨"ny", ["n"], false, []⟩, ⟨"fn", ["f", "m"], false, []⟩,
+     ⟨"ex", ["e"], false, []⟩, ⟨"ey", ["e"], true, []⟩]
+    = some ["Mesh2", "fn", "nx", "ny", "ex", "ey"] := by decide
+
+/-- `edit_value_changes_stream_any_storage`: a float64 variable stored as float32 whose last byte changes -/
+example : ∃ s s', cacheStream [(⟨⟨"lon", ["lon"], true, []⟩, "float64", some "float32", [1],
+      [0, 0, 0, 0, 0, 0, 0xf0, 0x3f], 0, [0x7b, 0x30]⟩ : DVar).record] ⟨"m", "C"⟩ "1" = some s
+    ∧ cacheStream [(⟨⟨"lon", ["lon"], true, []⟩, "float64", some "float32", [1],
+      [1, 0, 0, 0, 0, 0, 0xf0, 0x3f], 0, [0x7b, 0x30]⟩ : DVar).record] ⟨"m", "C"⟩ "1" = some s' ∧ s ≠ s' :=
+  ⟨_, _, rfl, rfl, by decide⟩
 
 /-- out-of-range and in-range `hash_int` -/
 example : hashInt 2147483648 = none ∧ hashInt (-2147483649) = none
